@@ -668,7 +668,6 @@ class WatParser(RecursiveDescentParser):
 
         if opcode == "if":
             block_id = self._parse_optional_id()
-            self.block_stack.append(block_id)
             block_type = self._load_block_type()
             if_instruction = components.BlockInstruction(
                 "if", block_id, block_type
@@ -678,8 +677,10 @@ class WatParser(RecursiveDescentParser):
                 # Nested/folded syntax stuff
                 # 'then' is no opcode, solely syntactic sugar.
 
-                # First is the condition:
+                # First is the condition, it is not in the scope
+                # of the label of this if:
                 instructions.extend(self._load_instruction_list())
+                self.block_stack.append(block_id)
                 instructions.append(if_instruction)
 
                 # A nested then:
@@ -697,6 +698,7 @@ class WatParser(RecursiveDescentParser):
                 self.block_stack.pop()
                 instructions.append(components.Instruction("end"))
             else:
+                self.block_stack.append(block_id)
                 instructions.append(if_instruction)
 
         elif opcode in ("block", "loop"):
